@@ -168,7 +168,13 @@ func (o Op) options() *openapi3filter.Options {
 	return opts
 }
 
-func reqDigest(req *http.Request) string {
+func reqDigestM(req *http.Request, marker string) string {
+	digest := func(parts ...string) string {
+		for i := range parts {
+			parts[i] = strings.ReplaceAll(parts[i], marker, "MARK")
+		}
+		return digest(parts...)
+	}
 	var body []byte
 	if req.Body != nil {
 		body, _ = io.ReadAll(req.Body)
@@ -182,7 +188,7 @@ func reqDigest(req *http.Request) string {
 	if json.Unmarshal(body, &norm) == nil {
 		body, _ = json.Marshal(norm)
 	}
-	return fmt.Sprintf("q=%s h=%s b=%s", req.URL.RawQuery, digest(hs...), digest(string(body)))
+	return fmt.Sprintf("q=%s h=%s b=%s", strings.ReplaceAll(req.URL.RawQuery, marker, "MARK"), digest(hs...), digest(string(body)))
 }
 
 type scriptKey struct{}
@@ -212,12 +218,35 @@ func NewShared(w *World) *Shared {
 }
 
 // Exec performs the op and returns its outcome in comparable form.
+// Remark returns the op with every occurrence of the run marker replaced
+// (the baseline runs each op against a document whose patterns carry a marker
+// of their own, so that "run alone" also means cold process-wide caches).
+func (o Op) Remark(from, to string) Op {
+	b, _ := json.Marshal(o)
+	var out Op
+	if json.Unmarshal([]byte(strings.ReplaceAll(string(b), from, to)), &out) != nil {
+		return o
+	}
+	return out
+}
+
+// Exec performs the op and returns its outcome in comparable form (the run
+// marker is masked, so outcomes under different markers are comparable).
 func (o Op) Exec(sh *Shared, marker string) (out string) {
 	defer func() {
 		if p := recover(); p != nil {
 			out = fmt.Sprintf("panic: %v", p)
 		}
+		out = strings.ReplaceAll(out, marker, "MARK")
+		out = strings.ReplaceAll(out, strings.ToUpper(marker), "MARK")
 	}()
+	digest := func(parts ...string) string {
+		for i := range parts {
+			parts[i] = strings.ReplaceAll(parts[i], marker, "MARK")
+		}
+		return digest(parts...)
+	}
+	reqDigest := func(req *http.Request) string { return reqDigestM(req, marker) }
 	w := sh.W
 	router := w.Gorilla
 	if o.Router == "legacy" {
